@@ -10,6 +10,7 @@ from ..tables import enum_switches, switch_arms, switch_edges
 from .compiler_common import PX, SINK, PUSH, cg, may_push
 
 LEVEL = 'other'
+TECHNIQUE = 'static analysis: call-graph reachability of the roster, must-push / may-push fixpoints, severity provenance, gates by dominance, whole-domain iteration provenance, decision audit of skip conditions against a reviewed table (same-file helpers and closures looked through)'
 CLAUSE = ('each rule checker of the frozen roster is reachable from App::build, is called on every path of the function that hosts it, can '
           'push a diagnostic and never lowers its severity below Error; in App::build every pass that receives the sink is followed by a '
           'has_errored gate before the Ok return; cycle detection starts a traversal from every node, the `&mut` input check looks at every '
